@@ -13,7 +13,7 @@ or None (unclassified = violation).
 """
 import ast
 
-from ..core.astutil import (u, call_name, calls, iter_stmts, compare_triples, const, parent_map, conjuncts, disjuncts, resolved,
+from ..core.astutil import (assign_pairs, u, call_name, calls, iter_stmts, compare_triples, const, parent_map, conjuncts, disjuncts, resolved,
                             stores_in, index_elts, ncmp)
 
 
@@ -669,7 +669,7 @@ def _helper_progress(helper, enumv):
     if prog is None:
         return False, "no relative-progress exit `prev - cur <= eps * prev` (non-strict) before `return %s`" % enumv
     pi, prev, cur, txt = prog
-    upd = [i for i, st in enumerate(body[pi + 1:ri], pi + 1) if isinstance(st, ast.Assign) and u(st.targets[0]) == prev and u(st.value) == cur]
+    upd = [i for i, st in enumerate(body[pi + 1:ri], pi + 1) if any(u(t_) == prev and u(v_) == cur for t_, v_ in assign_pairs(st))]
     if not upd:
         return False, "the carried value %s is not updated (%s = %s) between the progress test and `return %s`" % (prev, prev, cur, enumv)
     # nothing between the test and the return may raise cur again... (cur is only read)
